@@ -329,3 +329,52 @@ def loop_shapes():
         tag = f"pre{pre}-{ctx}-post{post}-{head}-brk{brk}-c{cont}-t{tail}"
         out.append((tag, Seq(tuple(items))))
     return out
+
+
+def fork_shapes():
+    """Small exhaustive family around nested forks: outer kind x number of
+    outer branches (2, 3) x how the first branch carries an inner fork (none;
+    event, inner, event; event, inner = bunched merge; event, inner whose
+    first branch holds a third-level XOR) x inner kind x detach on the last
+    plain branch (outermost AND/OR only) x event in front (or several start
+    events) x event behind (or fork last).  Distinct names throughout."""
+    import itertools
+    out = []
+    for outer, nb, carry, inner, kill, pre, post in itertools.product(
+            ("AND", "OR", "XOR"), (2, 3),
+            ("none", "mid", "bunched", "deep"), ("AND", "OR", "XOR"),
+            (0, 1), (1, 0), (1, 0)):
+        if carry == "none" and inner != "AND":
+            continue                      # inner kind irrelevant
+        if kill and outer == "XOR":
+            continue
+        if kill and not post:
+            continue                      # detach needs a merge to skip
+        n = [0]
+
+        def ev():
+            n[0] += 1
+            return Ev(f"E{n[0]}")
+        items = [ev()] if pre else []
+        b1 = [ev()]
+        if carry != "none":
+            ib1 = [ev()]
+            if carry == "deep":
+                ib1 += [Fork("XOR", (Seq((ev(),)), Seq((ev(),)))), ev()]
+            innerf = Fork(inner, (Seq(tuple(ib1)), Seq((ev(),))))
+            b1.append(innerf)
+            if carry in ("mid", "deep"):
+                b1.append(ev())
+        branches = [Seq(tuple(b1))]
+        for k in range(nb - 1):
+            b = [ev()]
+            if kill and k == nb - 2:
+                b.append(Kill())
+            branches.append(Seq(tuple(b)))
+        items.append(Fork(outer, tuple(branches)))
+        if post:
+            items.append(ev())
+        tag = (f"{outer}{nb}-{carry}-{inner if carry != 'none' else ''}"
+               f"-kill{kill}-pre{pre}-post{post}")
+        out.append((tag, Seq(tuple(items))))
+    return out
